@@ -135,7 +135,10 @@ func (g *adaptive) bring(pred func(o psref.Obj) bool, fresh func() []psref.Tok) 
 			varCands = append(varCands, v)
 		}
 	}
-	choice := g.draw(3, "bring")
+	choice := g.draw(4, "bring")
+	if choice == 3 {
+		choice = 1 // variables twice as likely: aliases that outlive the stack
+	}
 	switch {
 	case choice == 0 && len(cands) > 0:
 		k := cands[g.draw(len(cands), "bringk")]
